@@ -1440,6 +1440,7 @@ impl<'p> Harness<'p> {
             if p.subscriptions && !active_subs.is_empty() { 2 } else { 0 },              // 13 unsubscribe
             if p.subscriptions && !active_subs.is_empty() { 1 } else { 0 },              // 14 state unsubscribe
             if p.subscriptions && !ln.is_empty() && crate::choice::dv() >= 2 { 2 } else { 0 }, // 15 node-level on_update handler
+            if crate::choice::dv() >= 2 { 1 } else { 0 },                                // 16 reconfigure the height limit (far above any height in use)
         ];
         let a = ch.weighted(&w);
         self.classes.actions += 1;
@@ -1523,6 +1524,15 @@ impl<'p> Harness<'p> {
                 // mostly through the owning observer, sometimes through a foreign one (must be rejected)
                 let via = if ch.flag(1, 4) && live_obs.len() > 1 { live_obs[ch.choose(live_obs.len())] } else { own };
                 self.act_unsubscribe(si, via);
+            }
+            16 => {
+                label = "set_max_height_allowed";
+                let n = [100usize, 128, 200, 256][ch.choose(4)];
+                self.trace.push(format!("state.set_max_height_allowed({n})"));
+                let st = self.st().clone();
+                if let Err(m) = guarded(|| st.set_max_height_allowed(n)) {
+                    self.on_panic("set_max_height_allowed", m);
+                }
             }
             15 => {
                 label = "on_update";
